@@ -290,7 +290,7 @@ def _alarm(_sig, _frm):
     raise _Timeout()
 
 
-def guarded(model, fn, nav_budget, rec_extra=400, wall=30.0):
+def guarded(model, fn, nav_budget, rec_extra=150, wall=30.0):
     """run fn() with: recursion limit = current depth + rec_extra; at most nav_budget calls of
     model.get_associated_assets_by_field_name (counted by a delegating wrapper on the instance); wall alarm.
     Returns (status, value): ok / rec / budget / timeout / mem / exc"""
@@ -329,16 +329,35 @@ def guarded(model, fn, nav_budget, rec_extra=400, wall=30.0):
             model.__dict__.pop("get_associated_assets_by_field_name", None)
 
 
-class Real:
-    """real objects built from (language recipe, model recipe)"""
+_LCF_CACHE = {}
 
-    def __init__(self, lang, mrec, nav_budget=3000):
+
+def _class_key(lang):
+    """the part of a language the generated asset / association classes depend on"""
+    r = lang.rec
+    return json.dumps([r["types"], r["assocs"],
+                       [[t, n, o.get("ttc")] for (t, n, k, o) in r.get("steps", []) if k == "defense"]])
+
+
+class Real:
+    """real objects built from (language recipe, model recipe).  The LanguageGraph is built afresh for every case;
+    the generated classes (LanguageClassesFactory, ~10 ms) are cached per process, keyed by the asset types,
+    associations and defenses of the language (they are a function of nothing else)."""
+
+    def __init__(self, lang, mrec, nav_budget=2000):
+        from maltoolbox.language import LanguageGraph, LanguageClassesFactory
         self.lang = lang
         self.nav_budget = nav_budget
-        self.lg, self.lcf = mini.make_lang(lang.spec(), copy_spec=False)
+        self.lg = LanguageGraph(lang.spec())
+        key = _class_key(lang)
+        self.lcf = _LCF_CACHE.get(key)
+        if self.lcf is None:
+            self.lcf = _LCF_CACHE[key] = LanguageClassesFactory(LanguageGraph(lang.spec()))
         self.build_error = None
         self.model = None
         self.objs = []
+        self._memo = {}
+        self._stage = ""
         try:
             self._build(mrec)
         except Exception as ex:
@@ -372,20 +391,26 @@ class Real:
 
     def eval(self, e, X):
         """real evaluator on compact expression e from the assets X (iterable of indexes).
-        -> (status, frozenset idx | None, step name, length of the returned list)"""
+        -> (status, frozenset idx | None, step name, length of the returned list); memoised per case"""
         from maltoolbox.attackgraph.attackgraph import _process_step_expression
+        key = (json.dumps(e), tuple(sorted(X)))
+        if key in self._memo:
+            return self._memo[key]
         spec = to_spec(e)
         targets = [self.objs[k] for k in sorted(X)]
         st, val = guarded(self.model, lambda: _process_step_expression(self.lg, self.model, targets, spec),
                           self.nav_budget)
         if st != "ok":
-            return st, val, None, 0
-        res, name = val
-        return "ok", frozenset(self.index(o) for o in res), name, len(res)
+            out = (st, val, None, 0)
+        else:
+            res, name = val
+            out = ("ok", frozenset(self.index(o) for o in res), name, len(res))
+        self._memo[key] = out
+        return out
 
     def generate(self):
         from maltoolbox.attackgraph import AttackGraph
-        return guarded(self.model, lambda: AttackGraph(self.lg, self.model), self.nav_budget * 20)
+        return guarded(self.model, lambda: AttackGraph(self.lg, self.model), self.nav_budget)
 
 
 # =====================================================================================================
@@ -396,6 +421,49 @@ def describe(st, val):
         return "exc:" + type(val).__name__
     return {"rec": "RecursionError", "budget": "navigation-budget-exceeded", "timeout": "wall-timeout",
             "mem": "MemoryError"}.get(st, st)
+
+
+def trans_fields(L, e, acc=None):
+    """fields under a transitive operator in e, variables expanded"""
+    acc = set() if acc is None else acc
+    if e[0] == "t": acc.add(e[1])
+    if e[0] == "v":
+        for (U, v), body in L.vars.items():
+            if v == e[1]: trans_fields(L, body, acc)
+    for x in e[1:]:
+        if isinstance(x, list): trans_fields(L, x, acc)
+    return acc
+
+
+def cyclic_trans(mv, e, X):
+    """first transitive sub-expression whose reference input set reaches a cycle of its field: (field, input) or None"""
+    X = frozenset(X)
+    op = e[0]
+    if op == "t":
+        return (e[1], X) if mv.cyclic_from(e[1], X) else None
+    if op in "af": return None
+    if op == "s": return cyclic_trans(mv, e[2], X)
+    if op == "c":
+        return cyclic_trans(mv, e[1], X) or cyclic_trans(mv, e[2], mv.sem(e[1], X)[1])
+    if op == "v":
+        for x in X:
+            body, _U = mv.lang.var(mv.types[x], e[1])
+            c = cyclic_trans(mv, body, X)
+            if c: return c
+        return None
+    return cyclic_trans(mv, e[1], X) or cyclic_trans(mv, e[2], X)
+
+
+def nonterm_blame(real, mv, e, X, st, val):
+    """attribution of a non-terminating evaluation: the reference names a transitive over a reachable cycle, else
+    the generic localisation"""
+    c = cyclic_trans(mv, e, X)
+    if c is not None:
+        return dict(op="t", kind="term", sig="transitive:cyclic:%s" % describe(st, val),
+                    msg="%s from assets %s did not terminate within the guard (%s); %s* is applied to %s, from where "
+                        "the links of %s contain a cycle" % (show(e), sorted(X), describe(st, val), c[0], sorted(c[1]),
+                                                            c[0]))
+    return blame(real, mv, e, X)
 
 
 def blame(real, mv, e, X):
